@@ -67,6 +67,63 @@ example : (run .pinned State.empty witnessHistory).2.getLast? =
 example : (run .fixed State.empty witnessHistory).2.getLast? =
     some (.listing true true [Term.a1 "p" (.int 0)]) := by decide +kernel
 
+/-! ### retract removes exactly the clause it unified with, and each clause at most once -/
+
+/-- **C09_retract_removes_its_match**: on the repaired code, when backtracking into a retract
+    (handle `h`, pattern `pat`, remaining snapshot `rest`) delivers an answer, then there is a
+    snapshot clause `c` that is still in the database and whose (renamed) clause term unifies with
+    the pattern — the answer is the pattern so instantiated —; the database afterwards is the
+    database before with exactly the identity of `c` filtered out of its predicate; and the
+    iterator has advanced past `c`.  Snapshot clauses in front of `c` were skipped (no match, or
+    no longer present). -/
+theorem C09_retract_removes_its_match (m : State) (hinv : Inv m) (h : Nat) (pat : Term) (pi : PI)
+    (rest : List Stored) (i d : Nat) (t : Term)
+    (hans : (nextRetract .fixed m h pat pi rest i d).2 = .answer t) :
+    ∃ skipped c rest' nv σ, rest = skipped ++ c :: rest' ∧
+      LUV.present m.procs pi c.id = true ∧
+      unify fuelU [] (rulify pat) (rulify (shift nv c.raw)) = some σ ∧ t = resolve fuelU σ pat ∧
+      (nextRetract .fixed m h pat pi rest i d).1.procs = LUV.erase m.procs pi c.id ∧
+      LUV.present (nextRetract .fixed m h pat pi rest i d).1.procs pi c.id = false := by
+  have hr := nextRetract_refines m hinv h pat pi rest i d
+  have hans' : (LUV.redoRetract (abs m) h pat pi rest).2 = .answer t := by rw [hr]; exact hans
+  obtain ⟨skipped, c, rest', nv, σ, h1, h2, h3, h4, h5, _⟩ := LUV_redoRetract_answer h pat pi rest (abs m) t hans'
+  rw [hr] at h5
+  simp only [abs_procs] at h2 h5
+  exact ⟨skipped, c, rest', nv, σ, h1, h2, h3, h4, h5, by rw [h5]; exact LUV_present_erase _ _ _⟩
+
+/-- identities are never reused: clauses asserted later get identities at or above the counter,
+    every clause in the database is below it (`Inv`) — so a removed clause cannot come back and
+    be removed again -/
+theorem C09_asserted_ids_are_fresh (m : State) (c : Term) (front : Bool) (pi : PI) (p' : Proc)
+    (hinv : Inv m) (hg : (assertMerge m c front).1.procs.get pi = some p') :
+    ∀ d ∈ p'.clauses, (∃ p, m.procs.get pi = some p ∧ d ∈ p.clauses) ∨ m.nextId ≤ d.id := by
+  revert hg
+  fun_cases assertMerge m c front with
+  | case1 e h => intro hg d hd; exact Or.inl ⟨p', hg, hd⟩
+  | case2 pi0 h e hc => intro hg d hd; exact Or.inl ⟨p', hg, hd⟩
+  | case3 pi0 h raws hc p hd0 => intro hg d hd; exact Or.inl ⟨p', hg, hd⟩
+  | case4 pi0 h raws hc p hd0 added cs =>
+    intro hg d hd
+    simp only [Procs.get_set] at hg
+    split at hg
+    · rename_i hpp
+      subst hpp
+      simp only [Option.some.injEq] at hg
+      subst hg
+      have hmem : d ∈ added ∨ d ∈ p.clauses := by
+        simp only [cs] at hd
+        cases front
+        · simp at hd; exact hd.symm
+        · simp at hd; exact hd
+      rcases hmem with hm | hm
+      · exact Or.inr (mem_stamp hm).1
+      · left
+        simp only [p] at hm
+        split at hm
+        · rename_i p0 hg0; exact ⟨p0, hg0, hm⟩
+        · cases hm
+    · exact Or.inl ⟨p', hg, hd⟩
+
 /-! ### a call sees the clauses that existed when it was called -/
 
 /-- opening a call takes the whole clause list of the procedure, in order, at that moment -/
